@@ -50,19 +50,29 @@ Proof.
   cbn [length hfetch c_next c_stream c_defs]. rewrite Hd, Hr, Hc. reflexivity.
 Qed.
 
-(** * what the dictionary says about its key, read in the store of the moment *)
-Lemma dget_deref st d k : dget (deref_dict st d) k = option_map (deref_val st) (dget d k).
+(** * what the dictionary says, read in the store of the moment *)
+(* the value of entry k read in st *)
+Definition read_val (st : store) (k : string) (v : val) : val := snd (deref_entry st (k, v)).
+
+Lemma dget_deref st d k : dget (deref_dict st d) k = option_map (read_val st k) (dget d k).
 Proof.
-  induction d as [|[k' v] r IH]; [reflexivity|]. cbn [deref_dict map dget fst snd].
-  destruct (String.eqb k k'); [reflexivity|exact IH].
+  induction d as [|[k' v] r IH]; [reflexivity|]. cbn [deref_dict map dget deref_entry fst snd].
+  destruct (String.eqb k k') eqn:E; [|exact IH]. apply String.eqb_eq in E. subst k'. reflexivity.
 Qed.
 Lemma dhas_deref st d k : dhas (deref_dict st d) k = dhas d k.
 Proof. unfold dhas. rewrite dget_deref. destruct (dget d k); reflexivity. Qed.
 Lemma deref_fst st d : map fst (deref_dict st d) = map fst d.
 Proof. unfold deref_dict. rewrite map_map. reflexivity. Qed.
 
-Lemma deref_held_ref st slot k : Held.key_of st slot = Some k -> deref_val st (held_ref slot) = VKey k.
+Lemma read_key st v : read_val st K_KEY v = key_val st v.
+Proof. reflexivity. Qed.
+Lemma read_other st k v : String.eqb k K_KEY = false -> read_val st k v = deref_val st v.
+Proof. intros H. unfold read_val, deref_entry. cbn [fst snd]. rewrite H. reflexivity. Qed.
+
+Lemma deref_held_ref st slot k : Held.key_of st slot = Some k -> key_val st (held_ref slot) = VKey k.
 Proof. intros H. cbn. rewrite Nat2Z.id, H. reflexivity. Qed.
+Lemma key_val_name st s k : key_of_name_reg st s = Ok k -> key_val st (VStr s) = VKey k.
+Proof. intros H. cbn. rewrite H. reflexivity. Qed.
 
 (* the key of the event is a held object: the event is completed with that object's present definition *)
 Lemma held_key_given st defs d slot k :
@@ -70,7 +80,7 @@ Lemma held_key_given st defs d slot k :
   spec_param (deref_dict st defs) (deref_dict st d) [K_KEY] K_KEY = Some (VKey k).
 Proof.
   intros Hd Hk. apply spec_param_explicit. rewrite dget_deref, Hd. cbn [option_map].
-  rewrite (deref_held_ref st slot k Hk). reflexivity.
+  rewrite read_key, (deref_held_ref st slot k Hk). reflexivity.
 Qed.
 (* the event says nothing and the timeline's default key is a held object *)
 Lemma held_key_default st defs d slot k :
@@ -79,20 +89,76 @@ Lemma held_key_default st defs d slot k :
 Proof.
   intros Hd Hdef Hk. apply (spec_param_default _ _ _ _ (VKey k)).
   - intros k0 [<-|[]]. rewrite dget_deref, Hd. reflexivity.
-  - rewrite dget_deref, Hdef. cbn [option_map]. rewrite (deref_held_ref st slot k Hk). reflexivity.
+  - rewrite dget_deref, Hdef. cbn [option_map]. rewrite read_key, (deref_held_ref st slot k Hk). reflexivity.
+  - reflexivity.
+Qed.
+(* the key of the event is a NAME: the event is completed with the key the name denotes in the registry of the moment *)
+Lemma named_key_given st defs d s k :
+  dget d K_KEY = Some (VStr s) -> key_of_name_reg st s = Ok k ->
+  spec_param (deref_dict st defs) (deref_dict st d) [K_KEY] K_KEY = Some (VKey k).
+Proof.
+  intros Hd Hk. apply spec_param_explicit. rewrite dget_deref, Hd. cbn [option_map].
+  rewrite read_key, (key_val_name st s k Hk). reflexivity.
+Qed.
+Lemma named_key_default st defs d s k :
+  dget d K_KEY = None -> dget defs K_KEY = Some (VStr s) -> key_of_name_reg st s = Ok k ->
+  spec_param (deref_dict st defs) (deref_dict st d) [K_KEY] K_KEY = Some (VKey k).
+Proof.
+  intros Hd Hdef Hk. apply (spec_param_default _ _ _ _ (VKey k)).
+  - intros k0 [<-|[]]. rewrite dget_deref, Hd. reflexivity.
+  - rewrite dget_deref, Hdef. cbn [option_map]. rewrite read_key, (key_val_name st s k Hk). reflexivity.
   - reflexivity.
 Qed.
 
-(** * as long as nothing is re-tuned, a held key is a key given by value *)
+(** * names: in the freshly imported library a name means what Sched/Event.v says; constructing objects never changes it *)
+Lemma scale_byname_reg_init name : scale_byname_reg init_store name = scale_byname name.
+Proof.
+  unfold scale_byname_reg, scale_byname. rewrite init_reg_scale.
+  destruct (find _ builtin_scales) as [[n s]|]; reflexivity.
+Qed.
+Lemma key_of_name_reg_init name : key_of_name_reg init_store name = key_of_name name.
+Proof.
+  unfold key_of_name_reg, key_of_name. destruct (count_spaces _) as [|[|n]]; [| |reflexivity].
+  - rewrite scale_byname_reg_init. reflexivity.
+  - destruct (split_space _ _) as [a b]. rewrite scale_byname_reg_init. reflexivity.
+Qed.
+(* the meaning of a key name depends on the store only through what its scale name (or "major") denotes there *)
+Definition scale_name_of (name : string) : option string :=
+  let cs := list_ascii_of_string name in
+  match count_spaces cs with
+  | O => Some "major"%string
+  | S O => Some (string_of_list_ascii (snd (split_space cs [])))
+  | _ => None
+  end.
+Lemma key_of_name_reg_ext st st' name :
+  (forall sn, scale_name_of name = Some sn -> reg_scale st' sn = reg_scale st sn) ->
+  key_of_name_reg st' name = key_of_name_reg st name.
+Proof.
+  unfold scale_name_of, key_of_name_reg, scale_byname_reg. intros H.
+  destruct (count_spaces _) as [|[|n]]; [| |reflexivity].
+  - rewrite (H _ eq_refl). reflexivity.
+  - destruct (split_space _ _) as [a b]. cbn [snd] in H. rewrite (H _ eq_refl). reflexivity.
+Qed.
+(* ... so: whatever is constructed or re-tuned in between - scales and weighted scales under ANY name (also this one),
+   copies, keys -, as long as the registered Scale object itself is not written, the name denotes the same key *)
+Lemma key_name_stable st ops name sn r :
+  scale_name_of name = Some sn -> reg_of st sn = Some r ->
+  Forall (fun o => op_oid o <> Some r) ops ->
+  key_of_name_reg (hrun st ops) name = key_of_name_reg st name.
+Proof.
+  intros Hn Hr F. apply key_of_name_reg_ext. intros sn' E. rewrite Hn in E. inversion E; subst sn'.
+  apply (name_stable_run ops st sn r Hr F).
+Qed.
+
+(** * as long as nothing is re-tuned or constructed, a held key / a key name is a key given by value *)
 Lemma has_pat_deref1 st v : has_pat (deref1 st v) = has_pat v.
 Proof.
   destruct v; try reflexivity. cbn [deref1]. destruct (String.eqb kind HELD); [|reflexivity].
   destruct (Held.key_of st (Z.to_nat id)); reflexivity.
 Qed.
-Lemma deref1_not_pat st v : (forall l, v <> VPat l) -> forall l, deref1 st v <> VPat l.
+Lemma has_pat_key1 st v : has_pat (key1 st v) = has_pat v.
 Proof.
-  intros H l. destruct v; try (cbn; congruence).
-  cbn [deref1]. destruct (String.eqb kind HELD); [|congruence]. destruct (Held.key_of st (Z.to_nat id)); congruence.
+  destruct v; try apply has_pat_deref1. cbn [key1]. destruct (key_of_name_reg st s); reflexivity.
 Qed.
 
 Lemma pull_deref_val st v : deref_val st (pull_default v) = pull_default (deref_val st v).
@@ -101,36 +167,55 @@ Proof.
   cbn [pull_default deref_val deref1]. destruct (String.eqb kind HELD); [|reflexivity].
   destruct (Held.key_of st (Z.to_nat id)); reflexivity.
 Qed.
+Lemma pull_key_val st v : key_val st (pull_default v) = pull_default (key_val st v).
+Proof.
+  destruct v as [| | | | | | | | | |[|x l]]; try reflexivity.
+  - cbn [pull_default key_val key1]. destruct (key_of_name_reg st s); reflexivity.
+  - cbn [pull_default key_val key1 deref1]. destruct (String.eqb kind HELD); [|reflexivity].
+    destruct (Held.key_of st (Z.to_nat id)); reflexivity.
+Qed.
 Lemma deref_pull st defs : deref_dict st (pull_defaults defs) = pull_defaults (deref_dict st defs).
 Proof.
-  unfold deref_dict, pull_defaults. rewrite !map_map. apply map_ext. intros [k v]. cbn [fst snd].
-  rewrite pull_deref_val. reflexivity.
+  unfold deref_dict, pull_defaults. rewrite !map_map. apply map_ext. intros [k v]. unfold deref_entry. cbn [fst snd].
+  destruct (String.eqb k K_KEY); [rewrite pull_key_val|rewrite pull_deref_val]; reflexivity.
 Qed.
 
 Lemma existsb_has_pat_deref st l : existsb has_pat (map (deref1 st) l) = existsb has_pat l.
 Proof. induction l as [|x r IH]; [reflexivity|]. cbn [map existsb]. rewrite has_pat_deref1, IH. reflexivity. Qed.
+Lemma existsb_has_pat_key st l : existsb has_pat (map (key1 st) l) = existsb has_pat l.
+Proof. induction l as [|x r IH]; [reflexivity|]. cbn [map existsb]. rewrite has_pat_key1, IH. reflexivity. Qed.
 Lemma flat_deref_val st v : flat_default (deref_val st v) = flat_default v.
 Proof.
   destruct v; try reflexivity.
   - cbn [deref_val deref1]. destruct (String.eqb kind HELD); [|reflexivity]. destruct (Held.key_of st (Z.to_nat id)); reflexivity.
   - cbn [deref_val flat_default]. rewrite existsb_has_pat_deref. reflexivity.
 Qed.
+Lemma flat_key_val st v : flat_default (key_val st v) = flat_default v.
+Proof.
+  destruct v; try reflexivity.
+  - cbn [key_val key1]. destruct (key_of_name_reg st s); reflexivity.
+  - cbn [key_val key1 deref1]. destruct (String.eqb kind HELD); [|reflexivity]. destruct (Held.key_of st (Z.to_nat id)); reflexivity.
+  - cbn [key_val flat_default]. rewrite existsb_has_pat_key. reflexivity.
+Qed.
 Lemma flat_deref st defs : flat_defaults (deref_dict st defs) = flat_defaults defs.
 Proof.
   unfold flat_defaults, deref_dict. induction defs as [|[k v] r IH]; [reflexivity|].
-  cbn [map forallb fst snd]. rewrite flat_deref_val, IH. reflexivity.
+  cbn [map forallb fst snd deref_entry]. rewrite IH.
+  destruct (String.eqb k K_KEY); [rewrite flat_key_val|rewrite flat_deref_val]; reflexivity.
 Qed.
 
-Lemma deref_dset st d k v : deref_dict st (dset d k v) = dset (deref_dict st d) k (deref_val st v).
+Lemma deref_dset st d k v : deref_dict st (dset d k v) = dset (deref_dict st d) k (read_val st k v).
 Proof.
-  induction d as [|[k' v'] r IH]; [reflexivity|]. cbn [dset deref_dict map fst snd].
-  destruct (String.eqb k k'); cbn [map fst snd]; [reflexivity|]. unfold deref_dict in IH. rewrite IH. reflexivity.
+  induction d as [|[k' v'] r IH]; [reflexivity|]. cbn [dset deref_dict map fst snd deref_entry].
+  destruct (String.eqb k k') eqn:E; cbn [map fst snd deref_entry].
+  - apply String.eqb_eq in E. subst k'. reflexivity.
+  - unfold deref_dict in IH. rewrite IH. reflexivity.
 Qed.
 Lemma deref_assign st kvs : forall defs,
-  deref_dict st (assign defs kvs) = assign (deref_dict st defs) (map (fun kv => (fst kv, deref_val st (snd kv))) kvs).
+  deref_dict st (assign defs kvs) = assign (deref_dict st defs) (map (deref_entry st) kvs).
 Proof.
   unfold assign. induction kvs as [|[k v] r IH]; intros defs; [reflexivity|].
-  cbn [fold_left map fst snd]. rewrite IH, deref_dset. reflexivity.
+  cbn [fold_left map fst snd deref_entry]. rewrite IH, deref_dset. reflexivity.
 Qed.
 Lemma deref_apply_changes st ch t : forall defs,
   deref_dict st (apply_changes ch t defs) = apply_changes (deref_changes st ch) t (deref_dict st defs).
@@ -194,11 +279,13 @@ Lemma selecting_deref st d : spec_selecting_key (dhas (deref_dict st d)) = spec_
 Proof. apply spec_selecting_key_ext. intros k. apply dhas_deref. Qed.
 Lemma shape_deref st defs : defaults_shape defs -> defaults_shape (deref_dict st defs).
 Proof. unfold defaults_shape. rewrite deref_fst. exact (fun H => H). Qed.
-Lemma degree_floor_deref st dv z : degree_floor dv = Some z -> deref_val st dv = dv.
+Lemma degree_floor_deref st dv z : degree_floor dv = Some z -> read_val st K_DEGREE dv = dv.
 Proof. destruct dv; try discriminate; reflexivity. Qed.
 
 Definition key_is_held (defs d : dict) (slot : nat) : Prop :=
   dget d K_KEY = Some (held_ref slot) \/ (dget d K_KEY = None /\ dget defs K_KEY = Some (held_ref slot)).
+Definition key_is_named (defs d : dict) (s : string) : Prop :=
+  dget d K_KEY = Some (VStr s) \/ (dget d K_KEY = None /\ dget defs K_KEY = Some (VStr s)).
 
 Lemma held_key_param st defs d slot k : key_is_held defs d slot -> Held.key_of st slot = Some k ->
   spec_param (deref_dict st defs) (deref_dict st d) [K_KEY] K_KEY = Some (VKey k).
@@ -250,5 +337,55 @@ Proof.
 Qed.
 
 (* an unknown key is an unknown key whatever the held objects are *)
-Lemma in_deref st d k v : In (k, v) d -> In (k, deref_val st v) (deref_dict st d).
+Lemma in_deref st d k v : In (k, v) d -> In (k, read_val st k v) (deref_dict st d).
 Proof. intros H. unfold deref_dict. apply in_map_iff. exists (k, v). split; [reflexivity|exact H]. Qed.
+
+(** * pitch of an event whose key is given BY NAME, in the registry of the moment *)
+Lemma named_key_param st defs d s k : key_is_named defs d s -> key_of_name_reg st s = Ok k ->
+  spec_param (deref_dict st defs) (deref_dict st d) [K_KEY] K_KEY = Some (VKey k).
+Proof.
+  intros [H|[H1 H2]] Hk; [apply (named_key_given st defs d s k H Hk)|apply (named_key_default st defs d s k H1 H2 Hk)].
+Qed.
+
+Lemma named_scalar_pitch st defs d e s k dv z ov tv oc tr :
+  defaults_shape defs -> resolve (deref_dict st defs) (deref_dict st d) = Ok e ->
+  spec_selecting_key (dhas d) = Some K_NOTE ->
+  dget d K_NOTE = None -> dget d K_DEGREE = Some dv -> degree_floor dv = Some z ->
+  key_is_named defs d s -> key_of_name_reg st s = Ok k ->
+  spec_param (deref_dict st defs) (deref_dict st d) [K_OCTAVE] K_OCTAVE = Some ov -> py_int ov = Ok oc ->
+  spec_param (deref_dict st defs) (deref_dict st d) [K_TRANSPOSE] K_TRANSPOSE = Some tv -> py_int tv = Ok tr ->
+  exists a g ch pb, e_body e = BNote (VInt (spec_pitch k z oc tr)) a g ch pb.
+Proof.
+  intros Hs H Hsel Hn Hd Hf Hnamed Hk Ho Hoi Ht Hti.
+  pose proof (shape_deref st defs Hs) as Hs'.
+  assert (Hsel' : spec_selecting_key (dhas (deref_dict st d)) = Some K_NOTE) by (rewrite selecting_deref; exact Hsel).
+  destruct (note_field (deref_dict st defs) (deref_dict st d) e Hs' H Hsel') as (n & a & g & ch & pb & Eb & En).
+  rewrite (degree_scalar_pitch (deref_dict st defs) (deref_dict st d) e dv z (VKey k) k ov tv oc tr) in En; try assumption.
+  - inversion En; subst n. exists a, g, ch, pb. exact Eb.
+  - rewrite dget_deref, Hn. reflexivity.
+  - rewrite dget_deref, Hd. cbn [option_map]. rewrite (degree_floor_deref st dv z Hf). reflexivity.
+  - apply (named_key_param st defs d s k Hnamed Hk).
+  - reflexivity.
+Qed.
+
+Lemma named_chord_pitch st defs d e s k l zs ov tv oc tr :
+  defaults_shape defs -> resolve (deref_dict st defs) (deref_dict st d) = Ok e ->
+  spec_selecting_key (dhas d) = Some K_NOTE ->
+  dget d K_NOTE = None -> (dget d K_DEGREE = Some (VTup l) \/ dget d K_DEGREE = Some (VList l)) -> l <> [] ->
+  degree_floors l = Some zs ->
+  key_is_named defs d s -> key_of_name_reg st s = Ok k ->
+  spec_param (deref_dict st defs) (deref_dict st d) [K_OCTAVE] K_OCTAVE = Some ov -> py_int ov = Ok oc ->
+  spec_param (deref_dict st defs) (deref_dict st d) [K_TRANSPOSE] K_TRANSPOSE = Some tv -> py_int tv = Ok tr ->
+  exists a g ch pb, e_body e = BNote (VList (map (fun z => VInt (spec_pitch k z oc tr)) zs)) a g ch pb.
+Proof.
+  intros Hs H Hsel Hn Hd Hne Hf Hnamed Hk Ho Hoi Ht Hti.
+  pose proof (shape_deref st defs Hs) as Hs'.
+  assert (Hsel' : spec_selecting_key (dhas (deref_dict st d)) = Some K_NOTE) by (rewrite selecting_deref; exact Hsel).
+  destruct (note_field (deref_dict st defs) (deref_dict st d) e Hs' H Hsel') as (n & a & g & ch & pb & Eb & En).
+  rewrite (degree_chord_pitch (deref_dict st defs) (deref_dict st d) e l zs (VKey k) k ov tv oc tr) in En; try assumption.
+  - inversion En; subst n. exists a, g, ch, pb. exact Eb.
+  - rewrite dget_deref, Hn. reflexivity.
+  - rewrite !dget_deref. destruct Hd as [Hd|Hd]; rewrite Hd; [left|right]; reflexivity.
+  - apply (named_key_param st defs d s k Hnamed Hk).
+  - reflexivity.
+Qed.
